@@ -21,23 +21,27 @@ LOG="$VERIF_DIR/loom/build.log"
 RUSTFLAGS="--cfg loom --cfg penguin_rs_verif" CARGO_TARGET_DIR="$VERIF_DIR/loom-target" cargo test -p penguin-mux --lib --release --offline --no-run > "$LOG" 2>&1 || { echo "BUILD FAILED (loom)"; tail -30 "$LOG"; exit 2; }
 BIN=$(ls -t "$VERIF_DIR"/loom-target/release/deps/penguin_mux-* 2>/dev/null | grep -v '\.d$' | head -1)
 [ -x "$BIN" ] || { echo "no test binary"; exit 2; }
-"$BIN" --list 2>/dev/null | grep -q verif_loom_flow_ids || { echo "HARNESS ERROR: hook module verif_loom is not compiled in"; exit 2; }
+"$BIN" --list 2>/dev/null | grep -q verif_loom_abort_vs_request || { echo "HARNESS ERROR: hook module verif_loom is not compiled in"; exit 2; }
 mkdir -p "$VERIF_DIR/replays" "$VERIF_DIR/evidence"
 run_one() { # scenario bound -> prints output, returns status
   local T=verif_loom_writer_vs_task
-  case "$1" in *,w2,*) T=verif_loom_two_writers;; ids,*) T=verif_loom_flow_ids;; esac
+  case "$1" in *,w2,*) T=verif_loom_two_writers;; ids,*) T=verif_loom_flow_ids;; abort,*) T=verif_loom_abort_vs_request;; esac
   VERIF_LOOM_SCENARIO="$1" VERIF_LOOM_PREEMPTION_BOUND="$2" LOOM_MAX_BRANCHES=100000 "$BIN" $T --exact verif_loom::$T --nocapture --test-threads=1 2>&1
 }
 if [ -n "$REPLAY" ]; then
   SC=$(python3 -c "import json,sys;print(json.load(open(sys.argv[1]))['plan']['scenario'])" "$REPLAY")
   PB=$(python3 -c "import json,sys;print(json.load(open(sys.argv[1]))['plan']['preemption_bound'])" "$REPLAY")
-  OUT=$(run_one "$SC" "$PB"); echo "$OUT" | grep -E "LOST WAKEUP|CONSERVATION|CREDIT|CLOSED|PROGRESS|FLOWID|VERIF_LOOM" | head -3
+  OUT=$(run_one "$SC" "$PB"); echo "$OUT" | grep -E "LOST WAKEUP|CONSERVATION|CREDIT|CLOSED|PROGRESS|FLOWID|ABORT|deadlock|VERIF_LOOM" | head -3
   if echo "$OUT" | grep -q "test result: FAILED"; then echo "VIOLATION property=$ID replay=$REPLAY"; exit 1; fi
   exit 0
 fi
 if [ "$TIER" = "thorough" ]; then PB=5; else PB=3; fi
 python3 - "$SEED" "$ID" > /tmp/.loom_scen.$$ <<'PY'
 import sys, random
+if sys.argv[2] == "C08":
+    # the task's future dropped on one thread (u = never polled, r = running) while another thread
+    # calls new_stream_channel (o) / request_bind (b) on the Multiplexor it still holds
+    print("\n".join(f"abort,{t},{c}" for t in "ur" for c in "ob")); sys.exit(0)
 if sys.argv[2] == "C07":
     # application threads allocating flow ids (o = open, b = bind request) and the connection task
     # handling the peer's Connect (p<id>), over a generator scripted to collide
@@ -67,11 +71,11 @@ while read -r SC; do
   [ $N -le 3 ] && SAMPLES="$SAMPLES{\"scenario\":\"$SC\",\"interleavings\":$E},"
   if echo "$OUT" | grep -q "test result: FAILED\|panicked"; then
     VIOL=$((VIOL+1))
-    MSG=$(echo "$OUT" | grep -E "LOST WAKEUP|CONSERVATION|CREDIT|CLOSED|PROGRESS|FLOWID|panicked" | head -2 | tr '\n' ' ' | cut -c1-400)
+    MSG=$(echo "$OUT" | grep -E "LOST WAKEUP|CONSERVATION|CREDIT|CLOSED|PROGRESS|FLOWID|ABORT|deadlock|panicked" | head -2 | tr '\n' ' ' | cut -c1-400)
     R="$VERIF_DIR/replays/$ID-loom-$(echo "$SC" | tr ',+' '__').json"
     python3 - "$R" "$SC" "$PB" "$MSG" "$ID" <<'PY'
 import json,sys
-json.dump({"property":sys.argv[5],"engine":"loomsim","class":sys.argv[5]+":"+("flow-id-race" if sys.argv[5]=="C07" else "lost-wakeup" if "LOST WAKEUP" in sys.argv[4] else "credit-race"),"plan":{"scenario":sys.argv[2],"preemption_bound":int(sys.argv[3])},"expect":{"violation":sys.argv[4]},"note":"loom's DFS is deterministic: re-running the scenario reproduces the same failing interleaving"}, open(sys.argv[1],"w"), indent=1)
+json.dump({"property":sys.argv[5],"engine":"loomsim","class":sys.argv[5]+":"+("flow-id-race" if sys.argv[5]=="C07" else "request-hangs-at-task-drop" if sys.argv[5]=="C08" else "lost-wakeup" if "LOST WAKEUP" in sys.argv[4] else "credit-race"),"plan":{"scenario":sys.argv[2],"preemption_bound":int(sys.argv[3])},"expect":{"violation":sys.argv[4]},"note":"loom's DFS is deterministic: re-running the scenario reproduces the same failing interleaving"}, open(sys.argv[1],"w"), indent=1)
 PY
     [ $VIOL -le 3 ] && { echo "violation scenario=$SC : $MSG"; echo "VIOLATION property=$ID replay=$R"; }
     FAILED_SC="$FAILED_SC $SC"
@@ -79,6 +83,19 @@ PY
 done < /tmp/.loom_scen.$$
 rm -f /tmp/.loom_scen.$$
 T1=$(date +%s.%N)
+if [ "$ID" = "C08" ]; then
+python3 - "$VERIF_DIR/loom/C08-part.json" "$TIER" "$SEED" "$N" "$EXEC" "$VIOL" "$(echo "$T1 - $T0" | bc)" "[${SAMPLES%,}]" "$PB" <<'PY'
+import json,sys
+out,tier,seed,n,ex,viol,wall,samples,pb=sys.argv[1:10]
+json.dump({"engine":"loomsim","scenarios":int(n),"interleavings":int(ex),"preemption_bound":int(pb),"violations":int(viol),"wall_s":float(wall),"samples":json.loads(samples),
+ "rule":"scenario = the future of a real connection task (from Multiplexor::new_detailed over an idle transport; never polled, or polled once and parked) is dropped on one loom thread while another thread runs new_stream_channel or request_bind to completion on the Multiplexor it still holds; the transport's destructor is a scheduling point (tokio's channels are not instrumented by loom, and the task drops its transport between giving up the flow map and giving up its queues); each of the "+n+" scenarios is explored by loom's DFS up to preemption bound "+pb+"; oracle: the call returns Closed (a bind request may also resolve false) in every interleaving - a call that never returns leaves its thread blocked, which loom reports as a deadlock",
+ "components_real":["Multiplexor::new_detailed","TaskData::into_task / Task::start (first poll)","impl Drop for Task","Multiplexor::new_stream_channel","Multiplexor::request_bind","Multiplexor::insert_new_flow","penguin_mux::loom shim (loom RwLock, Mutex, Arc)"],
+ "components_stub":["thread scheduler (loom)","transport (idle; destructor = scheduling point)","tokio mpsc / oneshot (real, but not instrumented: atomic between loom operations)"]}, open(out,"w"), indent=1)
+PY
+echo "C08(loom) $TIER seed=$SEED scenarios=$N interleavings=$EXEC violations=$VIOL"
+[ $VIOL -gt 0 ] && exit 1
+exit 0
+fi
 if [ "$ID" = "C07" ]; then
 python3 - "$VERIF_DIR/loom/C07-part.json" "$TIER" "$SEED" "$N" "$EXEC" "$VIOL" "$(echo "$T1 - $T0" | bc)" "[${SAMPLES%,}]" "$PB" <<'PY'
 import json,sys
